@@ -603,7 +603,6 @@ func runC07Script(c *vh.Case, spec c07Spec) {
 
 var _ = testing.Short
 
-
 func c07Options(requested string) *mcp.ClientSessionOptions {
 	switch requested {
 	case "":
